@@ -289,6 +289,8 @@ def pyCall (fn : String) (args : List PyArg) : X Const :=
     | [ch] => pure (.int ch.toNat)
     | _ => throw (.exc "TypeError" "ord() expected a character")
   | fn, args =>
+    -- no argument at all: every builtin of the table raises
+    if args.isEmpty then throw (.exc "TypeError" "argument") else
     -- min / max of two or more scalars
     if (fn == "min" || fn == "max") && args.length ≥ 2 then
       match args.mapM (fun a => match a with | .scalar c => some c | .lst _ => none) with
@@ -363,7 +365,9 @@ def foldE : SExp → X SExp
       | some pa => pure (.const (← pyCall fn pa))
       | none => pure (.call fn args')
     else pure (.call fn args')
-  | .other w => throw (.outside s!"expression {w}")
+  | .other w =>
+    -- a subscript whose slice `visit_Subscript` replaced by a python value: nothing to fold in it
+    if "subscript-slice:".toList.isPrefixOf w.toList then pure (.other w) else throw (.outside s!"expression {w}")
 def foldEs : List SExp → X (List SExp)
   | [] => pure []
   | e :: es => do
@@ -676,72 +680,89 @@ def visitCall (st : RSt) (fn : String) (args : List SExp) : X SExp :=
     minmaxChain (if fn == "max" then "Gt" else "LtE") xs
   | _ => pure (.call fn args)
 
+/-- `visit_Subscript`, first branch: `L[a]` with `a` a constant of the environment - the slice becomes that constant
+(a python value is no syntax: the node is then `other "subscript-slice:<type>"`) -/
+def constSlice (st : RSt) (v i : SExp) : Option (X SExp) :=
+  match i with
+  | .name j =>
+    match lookup st.consts j with
+    | some (.raw c) => some (pure (.other ("subscript-slice:" ++ c.pyType)))
+    | some cv =>
+      match cv.asNode? with
+      | some e => some (pure (.sub v e))
+      | none => some (throw (.outside "constant of the environment"))
+    | none => none
+  | _ => none
+
+/-- the number of elements `visit_Subscript` reads off the type of `L` for `L[i]` -/
+def lenOfType (st : RSt) (L : String) : X Nat :=
+  let gtype := lookup st.types L
+  match gtype.bind EVal.asNode? with
+  | some (.tuple es) => pure es.length
+  | _ => do pure (← eltsOf (← typeSlice gtype)).length
+
+/-- `visit_Subscript`, second branch: `L[i]` -/
+def visitSub1 (st : RSt) (L iname : String) : X SExp := do
+  let n ← lenOfType st L
+  if n == 0 then throw (.exc "RecursionError" "maximum recursion depth exceeded")
+  pure (ifChain1 L iname 0 (n - 1))
+
+/-- the numbers of rows and of columns `visit_Subscript` reads off the type of `L` for `L[i][j]` (the columns are
+those of row 0) -/
+def dimsOfType (st : RSt) (L : String) : X (Nat × Nat) :=
+  let gtype := lookup st.types L
+  match gtype.bind EVal.asNode? with
+  | some (.tuple (.tuple r :: es)) => pure (es.length + 1, r.length)
+  | some (.tuple []) => throw (.exc "IndexError" "list index out of range")
+  | _ => do
+    let outer ← eltsOf (← typeSlice gtype)
+    let inner ← match outer with
+      | [] => throw (.exc "IndexError" "list index out of range")
+      | x :: _ => pure x
+    let inner' := match inner with
+      | .sub _ sl => sl
+      | x => x
+    pure (outer.length, (← eltsOf inner').length)
+
+/-- `visit_Subscript`, third branch: `L[i][j]` -/
+def visitSub2 (st : RSt) (L iname jname : String) : X SExp := do
+  let (n, m) ← dimsOfType st L
+  if n == 0 || m == 0 then throw (.exc "RecursionError" "maximum recursion depth exceeded")
+  pure (ifChain2 L iname jname (positions n m))
+
+/-- the if-chain over the elements of a tuple: `x0` unless `i == 1` (`x1`) … -/
+def tableChain (i : SExp) (x : SExp) (xs : List SExp) : SExp :=
+  (xs.zipIdx).foldl (fun acc (p : SExp × Nat) => .ite (.cmp "Eq" i (.const (.int ((p.2 : Int) + 1)))) p.1 acc) x
+
+/-- `visit_Subscript`, fourth branch: a variable index into a constant tuple / a tuple literal -/
+def visitSubTable (st : RSt) (v i : SExp) : X SExp :=
+  let varSlice := match i with
+    | .name _ => true
+    | .sub _ _ => true
+    | _ => false
+  if !varSlice then pure (.sub v i) else
+  match v with
+  | .name "Tuple" => pure (.sub v i)
+  | _ =>
+    let tup : Option SExp := match v with
+      | .name L => (lookup st.consts L).bind EVal.asNode?
+      | e => some e
+    match tup with
+    | some (.tuple []) => throw (.exc "IndexError" "list index out of range")
+    | some (.tuple (x :: xs)) => pure (tableChain i x xs)
+    | some (.const _) => throw (.exc "TypeError" "expected AST")
+    | some _ => throw (.exc "Exception" "Not a tuple in ast2ast visit subscript")
+    | none => throw (.exc "TypeError" "expected AST")
+
 /-- `visit_Subscript` -/
 def visitSub (st : RSt) (v i : SExp) : X SExp :=
-  -- L[a] with `a` a constant of the environment: the slice becomes that constant (a python value is no syntax)
-  let constSlice : Option (X SExp) := match i with
-    | .name j => match lookup st.consts j with
-      | some (.raw c) => some (pure (.other ("subscript-slice:" ++ c.pyType)))
-      | some cv => match cv.asNode? with
-        | some e => some (pure (.sub v e))
-        | none => some (throw (.outside "constant of the environment"))
-      | none => none
-    | _ => none
-  match constSlice with
+  match constSlice st v i with
   | some r => r
   | none =>
     match v, i with
-    | .name L, .name iname => do
-      -- L[i]
-      let gtype := lookup st.types L
-      let n ← match gtype.bind EVal.asNode? with
-        | some (.tuple es) => pure es.length
-        | _ => do pure (← eltsOf (← typeSlice gtype)).length
-      if n == 0 then throw (.exc "RecursionError" "maximum recursion depth exceeded")
-      pure (ifChain1 L iname 0 (n - 1))
-    | .sub (.name L) (.name iname), .name jname => do
-      -- L[i][j]
-      let gtype := lookup st.types L
-      let direct : Option (Nat × Nat) := match gtype.bind EVal.asNode? with
-        | some (.tuple (.tuple r :: es)) => some (es.length + 1, r.length)
-        | _ => none
-      let (n, m) ← match direct with
-        | some p => pure p
-        | none => do
-          match gtype.bind EVal.asNode? with
-          | some (.tuple []) => throw (.exc "IndexError" "list index out of range")
-          | _ => pure ()
-          let outer ← eltsOf (← typeSlice gtype)
-          let inner ← match outer with
-            | [] => throw (.exc "IndexError" "list index out of range")
-            | x :: _ => pure x
-          let inner' := match inner with
-            | .sub _ sl => sl
-            | x => x
-          pure (outer.length, (← eltsOf inner').length)
-      if n == 0 || m == 0 then throw (.exc "RecursionError" "maximum recursion depth exceeded")
-      pure (ifChain2 L iname jname (positions n m))
-    | _, _ =>
-      -- L[a] with `a` not constant and `L` a constant tuple / a tuple literal
-      let varSlice := match i with
-        | .name _ => true
-        | .sub _ _ => true
-        | _ => false
-      if !varSlice then pure (.sub v i) else
-      match v with
-      | .name "Tuple" => pure (.sub v i)
-      | _ => do
-        let tup : Option SExp := match v with
-          | .name L => (lookup st.consts L).bind EVal.asNode?
-          | e => some e
-        match tup with
-        | some (.tuple []) => throw (.exc "IndexError" "list index out of range")
-        | some (.tuple (x :: xs)) =>
-          pure ((xs.zipIdx).foldl (fun acc (p : SExp × Nat) =>
-            .ite (.cmp "Eq" i (.const (.int ((p.2 : Int) + 1)))) p.1 acc) x)
-        | some (.const _) => throw (.exc "TypeError" "expected AST")
-        | some _ => throw (.exc "Exception" "Not a tuple in ast2ast visit subscript")
-        | none => throw (.exc "TypeError" "expected AST")
+    | .name L, .name iname => visitSub1 st L iname
+    | .sub (.name L) (.name iname), .name jname => visitSub2 st L iname jname
+    | _, _ => visitSubTable st v i
 
 mutual
 /-- `ASTRewriter.visit` on an expression; `st` = the `Environment` at this point (expression visitors only read it) -/
@@ -1095,13 +1116,36 @@ def replaceArgs : Args → X Args
 def initSt (args : Args) : RSt :=
   { types := args.foldl (fun l (n, a) => insert l n (.ann a)) [] }
 
-/-- `ast2ast` on the body of a function: the rewritten body and the rules exercised -/
-def ast2ast (args : Args) (body : List SStmt) : X (List SStmt × List String) := do
+/-- `generic_visit` of the `FunctionDef` also visits the annotations (arguments before the body, `returns` after it):
+only an exception can be seen of it (`t: Tuple[bool]` is a `Subscript` by a `Name`: `visit_Subscript` asks the
+environment for the type of `Tuple`) -/
+def visitAnns (st : RSt) : List SExp → X Unit
+  | [] => pure ()
+  | a :: r => do
+    let _ ← visitE st a
+    visitAnns st r
+
+def visitRet (st : RSt) : Option SExp → X Unit
+  | none => pure ()
+  | some a => do
+    let _ ← visitE st a
+    pure ()
+
+def replaceRet : Option SExp → X (Option SExp)
+  | none => pure none
+  | some a => do pure (some (← replaceAnn a))
+
+/-- `ast2ast` on a function (argument annotations, return annotation, body): the rewritten body and the rules
+exercised -/
+def ast2ast (args : Args) (ret : Option SExp) (body : List SStmt) : X (List SStmt × List String) := do
   rejectReserved (args.map (·.1)) body
   let b1 ← foldSs body
   let args' ← replaceArgs args
+  let ret' ← replaceRet ret
   let b2 ← mtSs b1
+  visitAnns (initSt args') (args'.map (·.2))
   let (b3, st) ← (rwSs [] b2).run (initSt args')
+  visitRet st ret'
   let b4 ← foldSs b3
   let log := st.log ++ (if b1 != body then ["fold-pre"] else []) ++ (if b2 != b1 then ["multitarget"] else [])
     ++ (if b4 != b3 then ["fold-post"] else [])
